@@ -1,6 +1,8 @@
 package props
 
 import (
+	"strings"
+	"strconv"
 	"time"
 	"fmt"
 	"os"
@@ -133,4 +135,56 @@ func stdinJSON(e *core.Env, text string) (records []any, nerr int, recordsNull b
 		return nil, 0, false, "undecodable output: " + trunc(b.Stdout, 300), true
 	}
 	return recs, len(errsArr), rnull, "", true
+}
+
+// withAppended returns a copy of the generated document with the records of extra (a conforming text, recognised by the
+// reference) appended after a blank line: text and model stay in step. Line-level layout info is dropped.
+func withAppended(d *gen.Out, extra string) (*gen.Out, bool) {
+	rec := ref.Recognise(extra)
+	if rec.Verdict != ref.Conforming {
+		return d, false
+	}
+	text := d.Text
+	if text != "" && !strings.HasSuffix(text, "\n") {
+		text += "\n"
+	}
+	if text != "" {
+		text += "\n"
+	}
+	doc := d.Doc.Clone()
+	doc.Recs = append(doc.Recs, rec.Doc.Recs...)
+	feat := map[string]bool{}
+	for k, v := range d.Feat {
+		feat[k] = v
+	}
+	delete(feat, "no_final_newline")
+	return &gen.Out{Text: text + extra, Doc: doc, Feat: feat}, true
+}
+
+// manyRecordsText: n short records on consecutive days (every 7th without entries, some with a summary).
+func manyRecordsText(r *core.Rand, n int) string {
+	var sb strings.Builder
+	day := ref.DaysFromCivil(2031, 1, 1)
+	for i := 0; i < n; i++ {
+		if i > 0 {
+			sb.WriteString("\n")
+		}
+		sb.WriteString(ref.FormatDate(ref.DateFromDays(day+i), true) + "\n")
+		if i%5 == 0 {
+			sb.WriteString("note " + strconv.Itoa(i) + "\n")
+		}
+		if i%7 != 3 {
+			sb.WriteString("    " + strconv.Itoa(1+i%9) + "h\n")
+		}
+	}
+	return sb.String()
+}
+
+// longLineText: one record whose summary line (record summary or entry summary) is n bytes long.
+func longLineText(r *core.Rand, n int) string {
+	long := strings.Repeat("lorem ipsum ", n/12+1)[:n]
+	if r.Bool() {
+		return "2032-02-02\n" + long + "\n    1h\n"
+	}
+	return "2032-02-02\n    1h " + long + "\n    2h\n"
 }
